@@ -34,3 +34,9 @@ PROPS['C13'] = A(level='model_checking', harnesses=SEQ_H, budget=A(quick=150, th
              thorough='vector depth 7 sizes<=15; small_vector depth 6-7 sizes<=11; dyn_array depth 5; stack depth 16; list depth 14; intrusive_list fixpoint over 6 nodes'),
     assumptions=TRUST)
 PROPS['C13']['harnesses'] = SEQ_H + [A(src='harness/c13_ilist.cpp', san='asan')]
+
+HM_H = [A(src='harness/c14_hashmap.cpp', san='asan')]
+PROPS['C14'] = A(level='model_checking', harnesses=HM_H, budget=A(quick=150, thorough=1500),
+    bounds=A(quick='4 hash functions (identity, constant, low bit, x10) x 12 start states (pre-filled to 0,8,9,10,11,19,20,21,39,40 entries; filled to 12/21 and emptied) x all histories of depth 4 (5 from empty) over insert(const&/&&)/operator[]/operator[]=/remove on a 5-key alphabet of present and absent keys; get/find/const find/size/empty/iteration for every key of the universe after every transition',
+             thorough='5 hash functions, depth 5 (6 from empty)'),
+    assumptions=TRUST)
